@@ -91,6 +91,14 @@ class Aff:
             return self * o
         return NotImplemented
 
+    def __truediv__(self, o):
+        if isinstance(o, (int, float, _np.integer, _np.floating)) and any(n in (CTX[0].sizes if CTX[0] else ()) for n in self.t):
+            raise StageEnd("an extent is divided by a number (e.g. l / 2 as an exponent): beyond the generic-element fragment")
+        return GVal.lift(self) / o
+
+    def __rtruediv__(self, o):
+        return o / GVal.lift(self)
+
     def is_const(self):
         return not self.t
 
@@ -124,6 +132,11 @@ class Aff:
         return r
 
 
+class StageEnd(Exception):
+    """the real code leaves the fragment the generic-element execution understands; what was recorded up to here is
+    verified, the rest of the function is covered by the per-shape contracts only"""
+
+
 class Ctx:
     """event log of one generic-element run"""
 
@@ -137,14 +150,15 @@ class Ctx:
         self.atoms = {}
         self.reads = None  # collector active while a value is being built
 
-    def atom(self, k, j, i, tail):
-        return self.named_atom("S", k, j, i, tail)
+    def atom(self, *a):
+        return self.named_atom("S", *a)
 
-    def named_atom(self, nm, k, j, i, tail):
-        key = (nm, k.key(), j.key(), i.key(), tail)
+    def named_atom(self, nm, *a):
+        idx, tail = tuple(a[:-1]), a[-1]
+        key = (nm, tuple(e.key() for e in idx), tail)
         if key not in self.atoms:
-            name = "%s[%r,%r,%r|%s]" % (nm, k, j, i, ",".join(map(str, tail)))
-            self.atoms[key] = (S.Sym.symbol(name, "opq"), (k, j, i), tail)
+            name = "%s[%s|%s]" % (nm, ",".join(repr(e) for e in idx), ",".join(map(str, tail)))
+            self.atoms[key] = (S.Sym.symbol(name, "opq"), idx, tail)
         return self.atoms[key][0]
 
 
@@ -351,15 +365,15 @@ class GArray:
                 shape.append(axd[1])
             else:
                 shape.append(1)
-        k, j, i = elem[0], elem[1], elem[2]
+        eidx = tuple(elem[a] for a in range(len(self.dims)))
         tail_axes = [pos for pos, axd in enumerate(axes) if axd[0] == "tail"]
         data = _np.empty(shape, dtype=object)
         for tpos in itertools.product(*[range(t) for t in self.tail]):
             full = [0] * n
             for pos, tp in zip(tail_axes, tpos):
                 full[pos] = tp
-            data[tuple(full)] = C.atom(k, j, i, tpos) if reading else None
-        ev = dict(kind="read" if reading else "write", idx=(k, j, i), cons=cons, bounds=bounds, loops=list(C.loops), seq=None)
+            data[tuple(full)] = C.atom(*(eidx + (tpos,))) if reading else None
+        ev = dict(kind="read" if reading else "write", idx=eidx, cons=cons, bounds=bounds, loops=list(C.loops), seq=None)
         return data, sym, ev
 
     def __getitem__(self, idx):
@@ -402,7 +416,7 @@ class GSpecTable(GArray):
     def __getitem__(self, idx):
         C = CTX[0]
         real_atom = C.atom
-        C.atom = lambda k, j, i, tail: C.named_atom(self.name, k, j, i, tail)
+        C.atom = lambda *a: C.named_atom(self.name, *a)
         try:
             data, sym, _ev = self._view(idx, True)
         finally:
